@@ -78,6 +78,9 @@ class ClaytonCopula(LevyCopula):
         # sum_elmts = np.sum(np.absolute(us)**(-self.theta))
 
         factor = self.eta if sign_prod >= 0 else -(1.0 - self.eta)
+        if factor == 0:
+            # no mass on these orthants (eta = 0 or 1): 0 also when every argument is infinite (inf * 0 is undefined)
+            return 0.0
         return 2 ** (2 - us.size) * (sum_elmts ** (-1.0 / self.theta)) * factor
 
     def conditional_distribution(self, eps: float, x: np.array) -> np.array:
@@ -160,6 +163,10 @@ class IndependentComponentsCopula(LevyCopula):
     """
 
     def __call__(self, us: np.array) -> float:
+        if np.all(us == np.inf):
+            # every term u_i * prod_{j != i} 1{u_j = inf} of formula (4.2) is infinite
+            return np.inf
+
         kronecker_symbols = np.zeros_like(us)
         kronecker_symbols[us == np.inf] = 1.0
 
